@@ -459,6 +459,23 @@ def extra_clauses(rep, pp):
         if s._key() != pp.ad.Scalar(2.0)._key():
             rep.violation("identical trees over the same leaf data have equal keys and hashes", "Scalar after set_value", inputs={"old": 1.0, "new": 2.0},
                           detail=f"{s._key()!r} vs {pp.ad.Scalar(2.0)._key()!r}")
+        # the same number given as an int through set_value is the same leaf data (the constructor stores floats)
+        si = pp.ad.Scalar(1.0)
+        si.set_value(2)
+        sw.case("scalar set_value(int)", True)
+        if si._key() != pp.ad.Scalar(2)._key():
+            rep.violation("identical trees over the same leaf data have equal keys and hashes", "Scalar after set_value with an int", inputs={"old": 1.0, "new": 2},
+                          detail=f"{si._key()!r} vs {pp.ad.Scalar(2)._key()!r}")
+        # an operator renamed after its key was used: the name is leaf data of time-dependent arrays
+        td = pp.ad.TimeDependentDenseArray("a", [sd])
+        ka, _h = td._key(), hash(td)
+        td.set_name("b")
+        sw.case("set_name after the key was used", True)
+        if td._key() == ka:
+            rep.violation("operators whose leaf data differ have different keys", "TimeDependentDenseArray renamed after its key was used", inputs={"old": "a", "new": "b"}, detail=ka)
+        elif td._key() != pp.ad.TimeDependentDenseArray("b", [sd])._key():
+            rep.violation("identical trees over the same leaf data have equal keys and hashes", "TimeDependentDenseArray renamed after its key was used",
+                          inputs={"old": "a", "new": "b"}, detail=f"{td._key()!r} vs {pp.ad.TimeDependentDenseArray('b', [sd])._key()!r}")
         sw.case("parent of a scalar after set_value", True)
         fresh = pp.ad.Scalar(2.0) * x
         if parent._key() != fresh._key():
